@@ -19,6 +19,7 @@ pub mod c13;
 pub mod c14;
 pub mod c15;
 pub mod c18;
+pub mod c19;
 pub mod decide;
 pub mod faultsim;
 pub mod c16;
@@ -39,6 +40,7 @@ pub fn run(ctx: &Ctx) -> Option<&'static str> {
         "C12" => Some(c12::run(ctx)),
         "C05" => Some(c05::run(ctx)),
         "C06" => Some(c06::run(ctx)),
+        "C19" => Some(c19::run(ctx)),
         "C18" => Some(c18::run(ctx)),
         "C17" => Some(c17::run(ctx)),
         "C16" => Some(c16::run(ctx)),
